@@ -317,12 +317,50 @@ def cjumpInstr (f : Func) : Instr → Instr
     | _, _ => .cjump a c b yes no
   | i => i
 
-/-- the replaced jump is appended at the end of the block (`remove_instruction` + `add_instruction`) -/
-def cjumpBlock (f : Func) (b : Block) : Block :=
-  let folded := b.instrs.filter fun i => cjumpInstr f i != i
-  { b with instrs := (b.instrs.filter fun i => cjumpInstr f i == i) ++ folded.map (cjumpInstr f) }
+/-- `phi.del_incoming(blk)` (KeyError when the phi has no value for `blk`) -/
+def delIncoming (blk : String) : Instr → R Instr
+  | .phi d t ins =>
+    if ins.any (·.1 = blk) then .ok (.phi d t (ins.filter (·.1 ≠ blk))) else .error "KeyError"
+  | i => .ok i
 
-def cjumpPass (f : Func) : Func := mapBlocks f (cjumpBlock f)
+def delIncomingBlock (f : Func) (target blk : String) : R Func := do
+  let bs ← f.blocks.mapM fun b =>
+    if b.name = target then do pure { b with instrs := ← b.instrs.mapM (delIncoming blk) } else pure b
+  pure { f with blocks := bs }
+
+/-- the not-taken target of a conditional jump that folds to `jump t` -/
+def otherTarget : Instr → String → Option String
+  | .cjump _ _ _ yes no, t => if t = yes then (if no = yes then none else some no) else some yes
+  | _, _ => none
+
+/-- one block: folded jumps are appended at the end of the block (`remove_instruction` + `add_instruction`),
+    the phis of the not-taken target lose their value for this block; returns the number of folded jumps -/
+def cjumpBlock (st : Func × Nat) (bn : String) : R (Func × Nat) := do
+  let (f, n) := st
+  match f.findBlock bn with
+  | none => pure st
+  | some b =>
+    let folded := b.instrs.filter fun i => cjumpInstr f i != i
+    let kept := b.instrs.filter fun i => cjumpInstr f i == i
+    let f1 := mapBlocks f fun x => if x.name = bn then { x with instrs := kept ++ folded.map (cjumpInstr f) } else x
+    let f2 ← folded.foldlM (fun g i =>
+      match cjumpInstr f i with
+      | .jump t => (match otherTarget i t with
+          | some o => delIncomingBlock g o bn
+          | none => pure g)
+      | _ => pure g) f1
+    pure (f2, n + folded.length)
+
+/-- `SubRoutine.delete_unreachable` -/
+def deleteUnreachable (f : Func) : R Func := do
+  let r := f.reach none
+  let unr := f.blocks.filter fun b => !r.contains b.name
+  let f1 ← unr.foldlM (fun g b => b.succs.eraseDups.foldlM (fun g s => delIncomingBlock g s b.name) g) f
+  pure { f1 with blocks := f1.blocks.filter fun b => r.contains b.name }
+
+def cjumpPass (f : Func) : R Func := do
+  let (f1, n) ← (f.blocks.map (·.name)).foldlM cjumpBlock (f, 0)
+  if n = 0 then pure f1 else deleteUnreachable f1
 
 /-! ## LoadAfterStorePass -/
 
@@ -507,7 +545,7 @@ def passByName : String → Option (Func → R Func)
   | "delunused" => some fun f => .ok (deleteUnused f)
   | "cse" => some fun f => .ok (cse f)
   | "constfold" => some constFold
-  | "cjump" => some fun f => .ok (cjumpPass f)
+  | "cjump" => some cjumpPass
   | "las" => some fun f => .ok (loadAfterStore f)
   | "clean" => some clean
   | _ => none
